@@ -184,6 +184,26 @@ def run_unit(unit, tier):
                             core.bump(res['outcomes'], 'solved-violation')
                         else:
                             core.bump(res['outcomes'], 'solved-ok:' + which)
+        # history: the same solver object parses and solves a second block (other variables, other horizon)
+        for (b1, H1), (b2, H2) in [((0, 2), (1, 5)), ((1, 5), (0, 2)), ((0, 0), (1, 3)), ((1, 3), (0, 3))]:
+            s = EquationSolver(BLOCKS[b1] % H1)
+            s.SolveEquation()
+            s.GenerateCSVtext()
+            s.ParseString(BLOCKS[b2] % H2)
+            s.SolveEquation()
+            fresh = EquationSolver(BLOCKS[b2] % H2)
+            fresh.SolveEquation()
+            case = {'kind': 'solved-reuse', 'first': [b1, H1], 'second': [b2, H2]}
+            dig.add(('reuse', b1, H1, b2, H2))
+            table = dict((k, list(v)) for k, v in fresh.TimeSeries.items())
+            v = check_text(s.GenerateCSVtext('%.5g'), table, '%.5g', case, label='solved:reused-solver:')
+            res['evaluations'] += 1
+            res['nontrivial'] += 1
+            if v:
+                res['violations'].append(v)
+                core.bump(res['outcomes'], 'solved-violation')
+            else:
+                core.bump(res['outcomes'], 'solved-ok:reused-solver')
         # default format argument
         s = EquationSolver(BLOCKS[0] % 2)
         s.SolveEquation()
@@ -222,6 +242,17 @@ def replay(case):
         for n in case['names']:
             h[n] = list(table[n])
         v = check_text(h.GenerateCSVtext(case['fmt']), table, case['fmt'], case)
+        return [v] if v else []
+    if case['kind'] == 'solved-reuse':
+        (b1, H1), (b2, H2) = case['first'], case['second']
+        s = EquationSolver(BLOCKS[b1] % H1)
+        s.SolveEquation()
+        s.GenerateCSVtext()
+        s.ParseString(BLOCKS[b2] % H2)
+        s.SolveEquation()
+        fresh = EquationSolver(BLOCKS[b2] % H2)
+        fresh.SolveEquation()
+        v = check_text(s.GenerateCSVtext('%.5g'), dict((k, list(x)) for k, x in fresh.TimeSeries.items()), '%.5g', case, label='solved:reused-solver:')
         return [v] if v else []
     s = EquationSolver(BLOCKS[case['block']] % case['H'])
     s.TraceStep = 1 if case['H'] > 0 else None
